@@ -169,6 +169,7 @@ package fsnotify
 //@   let p = filepath.Clean(path)
 //@   ensures nolocks()                                                                              [C05 C07]
 //@   ensures old(closed(w.done)) ==> err == ErrClosed && !didLock(shared.mu)                        [C06] "after Close, Add fails with ErrClosed"
+//@   ensures modeA && didLock(shared.mu) && err == nil ==> Watched(w, filepath.Clean(path))         [C04 C01] "a successful Add leaves the file watched: listed under the cleaned argument, or already watched under the name it was first added as"
 //@   atcall inotify.register: arg_flags == requestInotify(with.op, with.noFollow)                   [C01 C15] "the native flags requested are exactly those needed for the requested operations"
 //@   atcall inotify.register: modeA ==> arg_path == p && !arg_recurse                               [C04 C08] "the watch is registered under the cleaned Add argument"
 
@@ -319,3 +320,50 @@ package fsnotify
 
 //@ lemma forall(o, Op, forall(nf, bool, specOpInotify(requestInotify(o, nf)) & (o & 0x1ff) == o & 0x1ff))     [C15] "none of the requested operations is left unobservable by the flags subscribed for it"
 //@ lemma forall(nf, bool, requestInotify(0, nf) & ^uint32(unix.IN_DONT_FOLLOW) == 0)                           [C15] "no flag is requested when no operation is"
+
+// ---- the thin wrappers (so that a change in them is checked too)
+//@ impl Watcher.b *inotify   [C01 C04 C05 C06 C07 C09 C13] "the Watcher's backend is the inotify value newBackend built"
+//@ pred Watched(w *inotify, p string) := has(atUnlock(w.watches.path), p) || has(atUnlock(w.watches.wd), uint32(lastWd))
+
+//@ func (w *inotify) Add(name string) (err error)
+//@   mode modeA: !enableRecurse
+//@   requires Wf(w) && nolocks() && !token(sawOpen)
+//@   ensures nolocks()                                                                              [C05 C07]
+//@   ensures old(closed(w.done)) ==> err == ErrClosed                                               [C06] "after Close, Add fails with ErrClosed"
+//@   ensures modeA && didLock(shared.mu) && err == nil ==> Watched(w, filepath.Clean(name))         [C04 C01] "a successful Add leaves the file watched: listed under the cleaned argument, or already watched under the name it was first added as"
+
+//@ func (w *Watcher) Add(path string) (err error)
+//@   mode modeA: !enableRecurse
+//@   requires w.b != nil && Wf(w.b) && nolocks() && !token(sawOpen)
+//@   ensures nolocks()                                                                              [C05]
+//@   ensures old(closed(w.b.done)) ==> err == ErrClosed                                             [C06]
+//@   ensures modeA && didLock(shared.mu) && err == nil ==> Watched(w.b, filepath.Clean(path))       [C04 C01]
+
+//@ func (w *Watcher) AddWith(path string, opts ...addOpt) (err error)
+//@   mode modeA: !enableRecurse
+//@   requires w.b != nil && Wf(w.b) && nolocks() && !token(sawOpen)
+//@   ensures nolocks()                                                                              [C05]
+//@   ensures old(closed(w.b.done)) ==> err == ErrClosed                                             [C06]
+//@   ensures modeA && didLock(shared.mu) && err == nil ==> Watched(w.b, filepath.Clean(path))       [C04 C01]
+
+//@ func (w *Watcher) Remove(path string) (err error)
+//@   mode modeA: !enableRecurse
+//@   requires w.b != nil && Wf(w.b) && nolocks() && !token(sawOpen)
+//@   ensures nolocks()                                                                              [C05]
+//@   ensures old(closed(w.b.done)) ==> err == nil                                                   [C06]
+//@   ensures didLock(shared.mu) ==> (errIs(err, ErrNonExistentWatch) <==> !has(atLock(w.b.watches.path), filepath.Clean(path)))     [C04 C07]
+//@   ensures didLock(shared.mu) && has(atLock(w.b.watches.path), filepath.Clean(path)) ==> atUnlock(w.b.watches.path) == del(atLock(w.b.watches.path), filepath.Clean(path))   [C04 C09]
+
+//@ func (w *Watcher) WatchList() (l []string)
+//@   requires w.b != nil && Wf(w.b) && nolocks()
+//@   ensures nolocks()                                                                              [C05]
+//@   ensures old(closed(w.b.done)) ==> len(l) == 0                                                  [C06]
+//@   ensures didLock(shared.mu) ==> forall(i, int, 0 <= i && i < len(l) ==> has(atLock(w.b.watches.path), l[i]))       [C04 C07]
+//@   ensures didLock(shared.mu) ==> forall(p, string, has(atLock(w.b.watches.path), p) ==> exists(i, int, 0 <= i && i < len(l) && l[i] == p))   [C04]
+
+//@ func (w *Watcher) Close() (err error)
+//@   requires w.b != nil && Wf(w.b) && nolocks()
+//@   ensures nolocks()                                                                              [C05]
+//@   ensures closed(w.b.done)                                                                       [C06 C05]
+//@   ensures old(closed(w.b.done)) ==> err == nil                                                   [C05]
+//@   ensures token(closer) ==> closeCalls == old(closeCalls) + 1                                    [C13]
